@@ -538,4 +538,27 @@ theorem unmatched_unique {cfg : Cfg} {re : Re} {lines : List (List Char)} {i c i
   cases this; exact ⟨rfl, rfl⟩
 
 
+/-- A reachable character (outside a span) that no token pattern matches makes `tokenize` raise the
+`LexicalError` at exactly that character — it cannot succeed, run out of fuel, or end in "span never closed". -/
+theorem tokenize_unmatched {cfg : Cfg} {re : Re} (hadv : ReAdv re) {lines : List (List Char)} {i c : Nat}
+    {line : List Char} (hr : Reach cfg re lines i c none) (hl : lines[i]? = some line)
+    (hc : c < line.length) (hn : re.norm i c = none) :
+    tokenize Bases.std cfg re lines = .error (.lexical ⟨1 + i, c⟩) := by
+  cases hres : tokenize Bases.std cfg re lines with
+  | ok toks =>
+    obtain ⟨m, hm⟩ := tokenize_complete hres hr hl hc
+    rw [hn] at hm; cases hm
+  | error x =>
+    cases x with
+    | py e => exact absurd hres (tokenize_no_py cfg re hadv lines e)
+    | lexical p =>
+      rcases tokenize_lexical_reach hres with ⟨i', c', line', h1, h2, h3, h4, rfl⟩ | ⟨k, hk⟩
+      · obtain ⟨rfl, rfl⟩ := unmatched_unique hr hl hc hn h1 h2 h3 h4
+        rfl
+      · exfalso
+        obtain ⟨n, hx⟩ := reach_iter hr
+        obtain ⟨m, hy⟩ := reach_iter hk
+        have := stuck_unique hx hy (by simp [stepConf, hl, hc, hn]) (by simp [stepConf])
+        cases this
+
 end SrcPos
